@@ -23,6 +23,13 @@ type refCounter struct {
 type SpinLock struct {
 	m          *sync.Map
 	refCounter *refCounter
+	// mu makes the per-key steps atomic: the map lookup/insert together with the
+	// reference count update (lockOne), and the reference count release together
+	// with the map delete (unlockOne). Done as separate steps, a shared lock could
+	// be counted for an entry that a concurrent Unlock was just removing; the key
+	// then looked free to an exclusive locker, and the shared holder's Unlock
+	// removed that exclusive holder's entry.
+	mu sync.Mutex
 }
 
 // LockKey is a lock item with lock type and key
@@ -108,48 +115,53 @@ func (sp *SpinLock) IsLocked(key string) bool {
 	return locked
 }
 
+// lockOne takes the lock on one key, returns false on a conflict
+func (sp *SpinLock) lockOne(k *LockKey) bool {
+	sp.mu.Lock()
+	defer sp.mu.Unlock()
+	lkType, occupiedByOthers := sp.m.LoadOrStore(k.key, k.lockType)
+	verifYield("trylock.loaded")
+	if occupiedByOthers && !(lkType == sharedLock && k.lockType == sharedLock) {
+		return false //读写冲突
+	}
+	if k.lockType == sharedLock { //读读共享, 或者第一个抢到
+		sp.refCounter.Add(k.key)
+	}
+	return true
+}
+
 //TryLock try to lock some keys
 func (sp *SpinLock) TryLock(lockKeys []*LockKey) ([]*LockKey, bool) {
 	succLocked := []*LockKey{}
 	for _, k := range lockKeys {
-		if lkType, occupiedByOthers := sp.m.LoadOrStore(k.key, k.lockType); occupiedByOthers {
-			verifYield("trylock.loaded")
-			if lkType == sharedLock && k.lockType == sharedLock { //读读共享
-				sp.refCounter.Add(k.key)
-				verifYield("trylock.added")
-				succLocked = append(succLocked, k)
-				continue
-			} else {
-				return succLocked, false //读写冲突
-			}
+		if !sp.lockOne(k) {
+			return succLocked, false
 		}
-		verifYield("trylock.loaded")
-		if k.lockType == sharedLock {
-			sp.refCounter.Add(k.key)
-			verifYield("trylock.added")
-		}
-		succLocked = append(succLocked, k) //第一个抢到
+		succLocked = append(succLocked, k)
+		verifYield("trylock.added")
 	}
 	return succLocked, true
+}
+
+// unlockOne releases the lock on one key
+func (sp *SpinLock) unlockOne(k *LockKey) {
+	sp.mu.Lock()
+	defer sp.mu.Unlock()
+	if k.lockType == exclusiveLock {
+		sp.m.Delete(k.key)
+	} else if k.lockType == sharedLock { //共享锁要考虑引用计数
+		if sp.refCounter.Release(k.key) == 0 {
+			verifYield("unlock.released")
+			sp.m.Delete(k.key)
+		}
+	}
 }
 
 //Unlock release the locks on some keys
 func (sp *SpinLock) Unlock(lockKeys []*LockKey) {
 	N := len(lockKeys)
 	for i := N - 1; i >= 0; i-- {
-		lkType := lockKeys[i].lockType
-		k := lockKeys[i].key
-		if lkType == exclusiveLock {
-			sp.m.Delete(k)
-			verifYield("unlock.deleted")
-		} else if lkType == sharedLock { //共享锁要考虑引用计数
-			if sp.refCounter.Release(k) == 0 {
-				verifYield("unlock.released")
-				sp.m.Delete(lockKeys[i].key)
-				verifYield("unlock.deleted")
-			} else {
-				verifYield("unlock.released")
-			}
-		}
+		sp.unlockOne(lockKeys[i])
+		verifYield("unlock.deleted")
 	}
 }
